@@ -494,6 +494,7 @@ fn sc_emergency(t: &mut Tracer, penalty: Decimal, name: &str) {
     w.pos_withdraw(&b, "u-two", Some(true), &[]);
     w.pos_withdraw(&c, "u-three", Some(true), &[]); // not the owner
     w.pos_withdraw(&b, "u-three", Some(true), &[]);
+    w.claim(&b, None, &[]); // pending rewards would block the closes
     w.pos_close(&b, "u-closed", None, &[]);
     w.pos_close(&b, "u-closed2", None, &[]);
     w.advance(3 * DAY + 17);
@@ -510,6 +511,24 @@ fn sc_emergency(t: &mut Tracer, penalty: Decimal, name: &str) {
     w.advance(DAY);
     w.pos_withdraw(&c, "u-c2", Some(true), &[]);
     w.pos_withdraw(&b, "u-mid", Some(true), &[]);
+    // closed positions with long locks (multiplier up to 16x, so base x multiplier exceeds the 90% cap) at several
+    // stages of unlocking: 10%, 50%, 90%, one second before the end
+    for (id, dur) in [("y1", YEAR), ("y2", YEAR), ("y3", YEAR), ("y4", 200 * DAY), ("h1", 15778463)] {
+        w.pos_create(&c, Some(id.into()), dur, None, &[coin(1_000_000, lp2.clone())]);
+    }
+    w.advance(DAY);
+    w.claim(&c, None, &[]);
+    for id in ["u-y1", "u-y2", "u-y3", "u-y4", "u-h1"] {
+        w.pos_close(&c, id, None, &[]);
+    }
+    w.advance(YEAR / 10);
+    w.pos_withdraw(&c, "u-y1", Some(true), &[]);
+    w.pos_withdraw(&c, "u-h1", Some(true), &[]);
+    w.advance(YEAR / 2 - YEAR / 10);
+    w.pos_withdraw(&c, "u-y2", Some(true), &[]);
+    w.pos_withdraw(&c, "u-y4", Some(true), &[]);
+    w.advance(YEAR / 2 - 2);
+    w.pos_withdraw(&c, "u-y3", Some(true), &[]);
     let _ = o;
 }
 
@@ -550,6 +569,81 @@ fn sc_two_lps_shared_cursor(t: &mut Tracer) {
     w.advance(DAY);
     w.claim(&b, None, &[]);
     w.claim(&c, None, &[]);
+}
+
+/// one user holding several positions whose LP denoms alternate in identifier order (a: lp1, b: lp2, c: lp1, d: lp2)
+fn sc_alternating_lp_positions(t: &mut Tracer) {
+    let mut w = W::new(SysCfg::default(), 2, t, "alternating_lp_positions");
+    let (lp, lp2) = (w.lps[0].clone(), w.lps[1].clone());
+    let (o, b, c) = (w.user(0), w.user(1), w.user(2));
+    let f = w.fee_funds(&coin(10_000, "uweth"));
+    w.create_farm(&o, &lp, Some(1), Some(11), coin(10_000, "uweth"), Some("fa".into()), &f);
+    let f2 = w.fee_funds(&coin(20_000, "uusd"));
+    w.create_farm(&o, &lp2, Some(1), Some(11), coin(20_000, "uusd"), Some("fb".into()), &f2);
+    w.pos_create(&b, Some("a".into()), DAY, None, &[coin(1000, lp.clone())]);
+    w.pos_create(&b, Some("b".into()), DAY, None, &[coin(1000, lp2.clone())]);
+    w.pos_create(&b, Some("c".into()), DAY, None, &[coin(1000, lp.clone())]);
+    w.pos_create(&b, Some("d".into()), 30 * DAY, None, &[coin(500, lp2.clone())]);
+    w.pos_create(&c, Some("z".into()), DAY, None, &[coin(2000, lp.clone())]);
+    w.pos_create(&c, Some("y".into()), DAY, None, &[coin(2000, lp2.clone())]);
+    w.advance(DAY);
+    w.advance(DAY);
+    w.claim(&b, None, &[]);
+    w.advance(DAY);
+    w.claim(&b, Some(2), &[]);
+    w.claim(&b, None, &[]);
+    w.claim(&c, None, &[]);
+    w.advance(DAY);
+    w.advance(DAY);
+    w.claim(&c, None, &[]);
+    w.claim(&b, None, &[]);
+}
+
+/// more than ten farms on one LP token (limit raised to 12), shares that are exact thirds (small and very
+/// large emissions), and a farm that is long relative to its budget and gets expanded
+fn sc_many_farms_exact_thirds_long_farm(t: &mut Tracer) {
+    let mut w = W::new(SysCfg::default(), 2, t, "many_farms_exact_thirds_long_farm");
+    let (lp, lp2) = (w.lps[0].clone(), w.lps[1].clone());
+    let (o, b, c, d, e) = (w.user(0), w.user(1), w.user(2), w.user(3), w.user(4));
+    w.fm_update_config(&o, upd_cfg(Some(12), None, None, None), "max_farms=12", &[]);
+    // three equal stakers on lp, 1/3 - 2/3 on lp2 (same lock, so the weights are in the same proportion)
+    for (u, id) in [(&b, "b"), (&c, "c"), (&d, "d")] {
+        w.pos_create(u, Some(format!("{id}1")), 7 * DAY, None, &[coin(1000, lp.clone())]);
+    }
+    w.pos_create(&b, Some("b2".into()), DAY, None, &[coin(1000, lp2.clone())]);
+    w.pos_create(&c, Some("c2".into()), DAY, None, &[coin(2000, lp2.clone())]);
+    // 12 farms on lp: rate 9 (1008 over 112 epochs), a huge one (3e21 per epoch), and ten ordinary ones
+    let mut mk = |w: &mut W, who: &Addr, id: &str, lp: &str, start: u64, end: u64, c: Coin| {
+        let f = w.fee_funds(&c);
+        w.create_farm(who, lp, Some(start), Some(end), c, Some(id.into()), &f)
+    };
+    mk(&mut w, &e, "nine", &lp, 1, 113, coin(1008, "uusd"));
+    mk(&mut w, &e, "huge", &lp, 1, 5, coin(12_000_000_000_000_000_000_000, "uweth"));
+    for k in 0..10u64 {
+        let who = if k % 2 == 0 { e.clone() } else { o.clone() };
+        mk(&mut w, &who, &format!("k{k}"), &lp, 1 + k % 3, 6 + k, coin(1000 * (5 + k as u128), "uusdt"));
+    }
+    mk(&mut w, &e, "thirteenth", &lp, 1, 5, coin(5000, "uusdt")); // over the limit of 12
+    mk(&mut w, &e, "huge2", &lp2, 1, 4, coin(9_000_000_000_000_000_000_000, "uweth"));
+    // a farm that is long relative to its budget: 1000 over 300 epochs (rate 3, remainder 100)
+    mk(&mut w, &e, "long", &lp2, 1, 301, coin(1000, "uusd"));
+    w.advance(DAY);
+    w.advance(DAY);
+    w.claim(&b, None, &[]);
+    w.claim(&c, Some(1), &[]);
+    w.expand_farm(&e, "m-long", &lp2, coin(6, "uusd"), &[coin(6, "uusd")]);
+    w.expand_farm(&e, "m-nine", &lp, coin(18, "uusd"), &[coin(18, "uusd")]);
+    w.advance(DAY);
+    w.claim(&c, None, &[]);
+    w.claim(&d, None, &[]);
+    w.pos_withdraw(&d, "u-d1", Some(true), &[]); // penalty shared among the owners of 12 farms
+    w.advance(DAY);
+    w.advance(DAY);
+    w.claim(&b, None, &[]);
+    w.claim(&c, None, &[]);
+    w.close_farm(&o, "m-k0", &[]); // contract owner closes somebody else's farm: refund goes to the farm owner
+    w.close_farm(&o, "m-nine", &[]);
+    w.claim(&b, None, &[]);
 }
 
 // ------------------------------------------------------------------------------------ random histories
@@ -693,7 +787,7 @@ pub fn random_history(rng: &mut StdRng, t: &mut Tracer, steps: usize, idx: usize
             }
             80..=89 => {
                 let rd = *rewards.choose(rng).unwrap();
-                let len = rng.gen_range(1..8u64);
+                let len = if rng.gen_bool(0.15) { rng.gen_range(40..400u64) } else { rng.gen_range(1..8u64) };
                 let start = if rng.gen_bool(0.3) { None } else { Some(cur + rng.gen_range(1..4)) };
                 let st = start.unwrap_or(cur + 1);
                 let end = if rng.gen_bool(0.1) { None } else { Some(st + len) };
@@ -771,6 +865,8 @@ pub fn run(rng: &mut StdRng, thorough: bool, t: &mut Tracer) {
     sc_emergency(t, Decimal::percent(100), "emergency_100pct");
     sc_emergency(t, Decimal::zero(), "emergency_0pct");
     sc_two_lps_shared_cursor(t);
+    sc_many_farms_exact_thirds_long_farm(t);
+    sc_alternating_lp_positions(t);
     // seeded random histories
     let (n, steps) = if thorough { (40, 120) } else { (6, 70) };
     for i in 0..n {
